@@ -1046,7 +1046,7 @@ func isInterface(v ssa.Value) bool {
 
 func c04RelativeUnits(c *core.Check) {
 	p := c.Prog
-	r8 := c.Rule("R8", "tree.length_, folded as a polynomial for each unit constant: em = value·fontSize argument (or the element's computed font size when the argument is negative), rem = value·root font size, ex/ch = value·fontSize·CharacterRatio(isCh=false/true), absolute units = value·LengthsToPixels[unit], px unchanged; all results in px", 18)
+	r8 := c.Rule("R8", "tree.length_, folded as a polynomial for each unit constant: em = value·fontSize argument (or the element's computed font size when the argument is negative), rem = value·root font size, ex/ch = value·fontSize·CharacterRatio(isCh=false/true), absolute units = value·LengthsToPixels[unit], px unchanged; all results in px", 20)
 	lf := p.Fn("html/tree", "length_")
 	charRatio := p.Fn("text", "CharacterRatio")
 	l2p := p.Global("css/properties", "LengthsToPixels")
